@@ -383,6 +383,10 @@ def conditional_guard(ctx, key, b, sinks, cond_spec, then_specs, desc, rule='R-d
         # (which edge is the `condition holds` edge depends on how rustc lowered `!a && b`; polarity is not decided)
         succs = [j for j, _ in b.succ(c)]
         best = None
+        # the condition branch may itself be the rejecting check (`if let Some(x) = cond { if x != y { bail } }` compiles to
+        # nested switches whose inner one derives from both): then there is nothing further to establish for it
+        if all(c in [g for g, _ in guard_switches(b, sinks, [spec])] for spec in then_specs):
+            continue
         for te in succs:
             fail = None
             # the condition is assumed loop-invariant: while exploring edge te the other edges of c do not exist
